@@ -207,6 +207,14 @@ def drive_crystal(rec):
             cr = Crystal(uc, SpaceGroup(1), AsymmetricUnit([Element.from_atomic_number(a["z"]) for a in lst["atoms"]], frac))
             kw = {} if rec["channel"] == "none" else {"with_property": rec["channel"]}
             fn = cr.molecular_shape_descriptors if rec["kind"] == "crystal-mol" else cr.atomic_shape_descriptors
+            if w and len(w) % 2 == 1:
+                # an object that has been used before: bonded neighbours listed, a short-range description attempted
+                for warm in (lambda: cr.atomic_surroundings(radius=1.5), lambda: cr.atom_group_surroundings([0], radius=1.2),
+                             lambda: cr.atomic_shape_descriptors(l_max=2, radius=1.4), lambda: cr.unit_cell_molecules()):
+                    try:
+                        warm()
+                    except Exception:
+                        pass
             d = np.asarray(fn(l_max=rec["lmax"], **kw), dtype=float)
             if d.ndim != 2 or not np.all(np.isfinite(d)):
                 raise FloatingPointError("descriptor table")
@@ -214,9 +222,11 @@ def drive_crystal(rec):
                 ref = float(np.max(np.abs(d)))
             ps["rows"] = [[int(round(float(x) / ref * 1048576)) if abs(x) / ref < 1000 else 2 ** 30 for x in row] for row in d]
         except Exception as e:
-            ps["exc"] = type(e).__name__
+            # "surface not found inside the bounds" is a legitimate outcome for a loosely packed listing; what matters is that
+            # every listing of the same arrangement has the same outcome, so the other listings are still evaluated
+            ps["exc"] = type(e).__name__ + (":isovalue" if "Unable to find isovalue" in str(e) else "")
         t["poses"].append(ps)
-        if ref is None:
+        if ref is None and not ps["exc"].endswith(":isovalue"):
             break
     return t
 
@@ -318,6 +328,17 @@ def molecules(rng, nrand=3):
     return out
 
 
+def hydrogens_first():
+    """Methyl compounds listed with a hydrogen first (as many files list them): the order is the caller's, the rows are not."""
+    def q(x):
+        return int(round(x * UNIT / 81.0)) * 81
+    methanol = [(1, (-1.08, 0.0, -0.64)), (6, (-0.05, 0.0, -0.66)), (8, (0.0, 0.0, 0.76)), (1, (0.44, 0.89, -1.04)),
+                (1, (0.44, -0.89, -1.04)), (1, (0.9, 0.0, 1.06))]
+    fluoromethane = [(1, (1.03, 0.0, -0.36)), (6, (0.0, 0.0, 0.0)), (9, (0.0, 0.0, 1.38)), (1, (-0.51, 0.89, -0.36)), (1, (-0.51, -0.89, -0.36))]
+    thiol = [(1, (0.96, 0.0, -0.92)), (16, (0.0, 0.0, 0.0)), (1, (-0.96, 0.0, -0.92))]          # hydrogen sulfide
+    return [[{"z": z, "p": [q(v) for v in p]} for z, p in m] for m in (methanol, fluoromethane, thiol)]
+
+
 def environment(rng, inner, n=160):
     import math
     def q(x):
@@ -368,6 +389,12 @@ def run(ctx):
             pool = [w for w in words if "E:" not in w]
             ws = [parse_word(w) for w in rng.sample(pool, min(len(pool), ctx.pick(4, 20)))]
             ws = [w for w in ws if all(not (tag == "P" and arg >= len(inner)) for tag, arg in w)]
+            recs.append({"lmax": lmax, "kind": "mol-atomic", "channel": "none", "words": ws, "base": {"inner": inner, "outer": []},
+                         "bounds": [0.2, 6.0], "probes": []})
+    for inner in hydrogens_first():
+        for lmax in ctx.pick([4], [4, 6, 8]):
+            # the first two listed atoms exchanged (a heavy atom first), alone and after a rigid motion
+            ws = [[["P", 1]], [["P", 2], ["P", 1]]] + [parse_word(w) for w in rng.sample([w for w in words if "E:" not in w and "P:" not in w], 2)]
             recs.append({"lmax": lmax, "kind": "mol-atomic", "channel": "none", "words": ws, "base": {"inner": inner, "outer": []},
                          "bounds": [0.2, 6.0], "probes": []})
     # molecules and atoms in their crystal: the descriptors belong to the arrangement, not to how the cell is listed
